@@ -357,7 +357,25 @@ Definition c10_reasons (ops : list op) (os : list obs) : Z :=
        matched_count is then 1.
    (Bit 8 - the upserted _id is a datetime with sub-millisecond precision or a timezone, the
    result carrying the original value and the stored document the truncated one - is gone:
-   the library now keys the store by, and returns, the normalised _id.) *)
+   the library now keys the store by, and returns, the normalised _id.  Bit 16 is used by
+   c13_check for the syntactically undecided upserts.)
+   32 = F-UPSERT-ID-SUBFIELD (update_one / update_many upserts only): an operator of the update
+       addresses a path strictly below "_id" ("_id.x"): the operator rewrites the _id
+       the seed took from the filter, so the upserted _id is not the filter's:
+       update_one({_id: {a: 1}}, {$set: {"_id.x": 1}}, upsert=True) inserts _id {a: 1, x: 1}
+       (the server rejects the update: _id is immutable); see Refuted/C13.v C1;
+   64 = F-UPSERT-NULL-ID (update_one / update_many upserts only): the filter binds _id to None:
+       the seed's _id None is replaced by a fresh ObjectId, so the upserted document does not
+       match the equality-only filter {_id: None, ...} (the server inserts _id None), and
+       the same upsert inserts again every time; see Refuted/C13.v C2 *)
+Definition c13_id_subfield (u : value) : bool :=
+  existsb (fun p => match split_dots p with h :: _ :: _ => String.eqb h "_id" | _ => false end)
+          (update_paths u).
+Definition c13_null_id_filter (f : value) : bool :=
+  match f with
+  | VDoc fs => match assoc "_id" fs with Some VNull => true | _ => false end
+  | _ => false
+  end.
 Definition c13_reasons (ops : list op) (os : list obs) : Z :=
   (fix go (ops : list op) (os : list obs) (before : list (value * value)) (info : value) : Z :=
      match ops, os with
@@ -371,6 +389,10 @@ Definition c13_reasons (ops : list op) (os : list obs) : Z :=
               + (if forallb (fun kd => py_eq (fst kd) (fst kd)) before then 0 else 2)
               + (if existsb (fun kd => is_null (fst kd)) after
                     && negb (existsb (fun kd => is_null (fst kd)) before) then 4 else 0)
+              + (if match o with OUpdate _ u _ true => c13_id_subfield u | _ => false end
+                 then 32 else 0)
+              + (if match o with OUpdate f _ _ true => c13_null_id_filter f | _ => false end
+                 then 64 else 0)
             else 0)
            (go ops' os' after info')
      | _, _ => 0
